@@ -7,7 +7,7 @@ PATCH=$(realpath "$1"); shift
 OUT=$(mktemp -d /var/tmp/verif-mut.XXXXXX)
 cd /repo || exit 99
 if ! git -C /repo diff --quiet; then echo "/repo has uncommitted changes; refusing"; exit 98; fi
-trap 'git -C /repo checkout -- . ; rm -rf "$OUT"' EXIT
+trap 'git -C /repo checkout -- . ; git -C /repo clean -fdq tests 2>/dev/null; rm -rf "$OUT"' EXIT
 if ! git -C /repo apply "$PATCH"; then echo "PATCH DOES NOT APPLY: $PATCH"; exit 97; fi
 n=0
 for id in "$@"; do
